@@ -26,6 +26,8 @@ const SUBSET_BPS: &[u32] = &[16, 8, 12, 20, 24, 32];
 /// 16-bit tens-of-Hz extension): a raw stream has no STREAMINFO to refer to, so the stream writer has
 /// to refuse them — or whatever it emits must still be decodable from the frame's own header
 const UNCODABLE_RATES: &[u32] = &[65537, 99999, 705600, 768000, 1048575, 655351, 655360];
+/// bit depths without a frame-header code (only 8, 12, 16, 20, 24, 32 have one): same reasoning
+const UNCODABLE_BPS: &[u32] = &[4, 7, 9, 13, 17, 23, 31];
 
 pub fn send(ch: &Choices, disk: &Disk, max_frames: u64, small: bool) -> Result<Vec<Sent>, String> {
     let n = 1 + ch.draw("c16.frames", max_frames);
@@ -54,6 +56,9 @@ pub fn send(ch: &Choices, disk: &Disk, max_frames: u64, small: bool) -> Result<V
             }
             chn = 1 + *ch.pick("c16.ch", &[0u8, 1, 0, 1, 2, 5, 7]);
             bps = *ch.pick("c16.bps", SUBSET_BPS);
+            if ch.draw("c16.bps.uncodable", 12) == 11 {
+                bps = *ch.pick("c16.bps.u", UNCODABLE_BPS);
+            }
             if i > 0 {
                 probe("c16_parameter_change_between_frames");
             }
@@ -68,15 +73,15 @@ pub fn send(ch: &Choices, disk: &Disk, max_frames: u64, small: bool) -> Result<V
         let pcm = draw_pcm(ch, chn, bps, len);
         let before = disk.len(file);
         let res = w.write(rate, chn, bps, &pcm.inter);
-        if UNCODABLE_RATES.contains(&rate) {
+        if UNCODABLE_RATES.contains(&rate) || UNCODABLE_BPS.contains(&bps) {
             match res {
                 Err(_) if disk.len(file) == before => {
                     // refused, nothing emitted: the stream is unaffected
-                    probe("c16_uncodable_rate_refused");
+                    probe(if UNCODABLE_BPS.contains(&bps) { "c16_uncodable_depth_refused" } else { "c16_uncodable_rate_refused" });
                     continue;
                 }
-                Err(e) => return Err(format!("frame {i}: rate {rate} was refused ({e:?}) after {} bytes had been emitted into the stream", disk.len(file) - before)),
-                Ok(()) => probe("c16_uncodable_rate_accepted"),
+                Err(e) => return Err(format!("frame {i}: rate {rate} / {bps} bits was refused ({e:?}) after {} bytes had been emitted into the stream", disk.len(file) - before)),
+                Ok(()) => probe("c16_uncodable_parameters_accepted"),
             }
         } else {
             res.map_err(|e| format!("frame {i} (rate={rate} ch={chn} bits={bps} len={len}): {e:?}"))?;
